@@ -4,7 +4,7 @@ import CnlSpec.Rounding
 import CnlModel.RoundCvt
 import CnlModel.OverflowFloat
 import CnlDriver.FloatIO
-/-! `C11` table: static_number operations and short histories. -/
+/-! `C11` table: static_number operations, shifts and short histories. -/
 namespace Cnl.Drv
 open Cnl Cnl.Static
 
@@ -87,6 +87,9 @@ def judge (tag : OvTag) (ideal : Ideal) (satD : Nat) (res : String) : Option Boo
       | none => some false
     | .thr => some (res == (if p then "THROW+" else "THROW-"))
     | .trp => some (res == (if p then "TRAP+" else "TRAP-"))
+    -- the undefined tag calls `unreachable("positive overflow" / "negative overflow")`, which outside
+    -- CNL_RELEASE builds is `abort(message)`: the harness observes it like a trap, with its polarity
+    | .und => some (res == (if p then "TRAP+" else "TRAP-"))
     | _ => none
 
 /-- known-defect classes of a narrowing conversion from `d1` digits at `e1` to exponent `e3` -/
@@ -98,8 +101,74 @@ def c11CvtClass (mode : RdMode) (d1 : Nat) (e1 e3 : Int) (a : Int) : String :=
     let q := Spec.roundDiv (modeOf11 mode) a (2^k)
     if q.natAbs > 2^(d1 - k) - 1 then "C11.rounded_value_exceeds_intermediate_digits" else ""
 
+/-- a returned number must also lie in the range `±(2^digits − 1)` its own type declares -/
+def inDeclaredRange (res : String) : Bool :=
+  match parseSN res with
+  | some (d, _, v) => decide (v.natAbs ≤ 2^d - 1)
+  | none => true
+
+/-- exact mathematics of one shift, independent of the model: `x·2^k` fits the result's digits or is
+signalled; `x >> k` is `⌊x / 2^k⌋` and never signals; a constant count on a static_number moves
+the exponent only -/
+def idealShift (tag : OvTag) (isShl : Bool) (bare : Bool) (constCount : Bool) (D : Nat) (e : Int) (x k : Int) : Ideal :=
+  if constCount && !bare then .val (if isShl then e + k else e - k) x
+  else if k < 0 then .undef
+  -- operands have fewer than 4096 digits: beyond that count nothing changes (`x·2^k` fits only for
+  -- `x = 0`, `⌊x / 2^k⌋` is `0` or `−1`), so the power is not computed for counts like `INT_MAX`
+  else if !isShl then .val e (x / 2^(min k.toNat 4096))
+  else
+    let w := x * 2^(min k.toNat 4096)
+    let rd : Nat := if constCount then D + k.toNat else D
+    if w > 2^rd - 1 then (if tag == .sat then .val e (2^rd - 1) else .signal true)
+    else if w < -(2^rd - 1 : Int) then (if tag == .sat then .val e (-(2^rd - 1 : Int)) else .signal false)
+    else .val e w
+
+/-- the model's outcome as the harness prints it; the undefined tag's `unreachable(message)` is an
+`abort(message)` in the (non-release) configuration of the check, printed with its polarity -/
+def showRes11 (tag : OvTag) (m : Res SNum) : String :=
+  match tag, m with
+  | .und, .unreachable "positive overflow" => "TRAP+"
+  | .und, .unreachable "negative overflow" => "TRAP-"
+  | _, _ => showRes showSN m
+
 def checkC11 (toks : List String) (res : String) : Option Verdict :=
   match toks with
+  | ["shift", ops, mode, tag, d, es, ck, x, k] => do
+    -- `x OP count`; `es` is the exponent of a static_number or `i` for a bare static_integer; count kinds:
+    -- int / si (run-time: built-in, static_integer), const (cnl::constant), aint / aconst (compound assignment)
+    let op ← parseBinOp ops; let mode ← parseRdMode mode; let tag ← parseOvTag tag
+    let d ← d.toNat?; let x ← x.toInt?; let k ← k.toInt?
+    let bare := es == "i"
+    let e ← if bare then some (0 : Int) else es.toInt?
+    guard (op == .shl || op == .shr)
+    let isShl := op == .shl
+    let c : Cfg := ⟨mode, tag⟩
+    let xs : SNum := ⟨d, e, x⟩
+    let constCount := ck == "const" || ck == "aconst"
+    let assign := ck == "aint" || ck == "aconst"
+    guard (ck == "int" || ck == "si" || constCount || assign)
+    let sh : Res SNum :=
+      if !constCount then shiftRT c op xs k
+      else if bare then (if k < 0 then .ill "negative constant count" else shiftConstInt c op xs k.toNat)
+      else shiftConstNum op xs k
+    let m := if assign then shiftAssign c sh xs else sh
+    let i0 := idealShift tag isShl bare constCount d e x k
+    let ideal := if assign then idealCvt mode tag d e i0 else i0
+    let satD : Nat := if assign || !constCount then d else d + k.toNat
+    -- the conversion back of a compound assignment inherits the narrowing classes
+    let cvtCls := if assign then (match sh with | .ok z => c11CvtClass mode z.digits z.exp e z.value | _ => "") else ""
+    let floorV := x / 2^(min k.toNat 4096)
+    let cls :=
+      if cvtCls != "" then cvtCls
+      else if !isShl && constCount && bare && !assign && k ≥ 0 && floorV < -(2^(d - k.toNat) - 1 : Int) then
+        "C11.shr_constant_below_declared_range"
+      else ""
+    let spec := match judge tag ideal satD res with
+      | some true => some (inDeclaredRange res)
+      | o => o
+    some { model := showRes11 tag m, spec := spec, cls := cls,
+           branch := "shift/" ++ ops ++ "/" ++ ck ++ (if bare then "/si" else "/sn") ++ "/" ++ toks[3]!,
+           nontrivial := x != 0 && k != 0 }
   | ["bin", mode, tag, ops, d1, e1, d2, e2, a, b] => do
     let mode ← parseRdMode mode; let tag ← parseOvTag tag; let op ← parseBinOp ops
     let d1 ← d1.toNat?; let e1 ← e1.toInt?; let d2 ← d2.toNat?; let e2 ← e2.toInt?; let a ← a.toInt?; let b ← b.toInt?
